@@ -614,6 +614,41 @@ pub fn case_strategy(o: GenOpts) -> impl Strategy<Value = Case> {
     tape_strategy(160).prop_map(move |tape| decode(&tape, &o))
 }
 
+/// C06's generator: ONE aggregation rule over EDB relations (1-3 body atoms, joins that multiply
+/// bindings, optional filter/negation, wildcards when `agg_wildcards`), values repeated on purpose
+/// (small domain), plus the query clause that returns the aggregate relation unchanged.
+pub fn decode_agg_case(tape: &[u16], o: &GenOpts) -> Case {
+    let mut t = Tape::new(tape);
+    let n_edb = 1 + t.below(3);
+    let mut rels: Vec<RelInfo> = Vec::new();
+    for i in 0..n_edb {
+        rels.push(RelInfo { name: format!("e{i}"), arity: 1 + t.below(3), float_cols: BTreeSet::new() });
+    }
+    let arity = 1 + t.below(3);
+    let agg = gen_agg_clause(&mut t, o, "p0", arity, &rels, &[]);
+    let hv: Vec<u8> = (0..arity as u8).collect();
+    let q = Clause {
+        head: "q".into(),
+        hargs: hv.iter().map(|v| HT::V(*v)).collect(),
+        body: vec![Lit::Pos(Atom { rel: "p0".into(), args: hv.iter().map(|v| T::V(*v)).collect() })],
+    };
+    let mut edb: Edb = BTreeMap::new();
+    let mut ar = BTreeMap::new();
+    for r in &rels {
+        ar.insert(r.name.clone(), r.arity);
+        let n = t.below(o.max_edb_rows + 1);
+        let mut rows = BTreeSet::new();
+        for _ in 0..n {
+            let row: Row = (0..r.arity).map(|_| t.range(0, o.dom - 1)).collect();
+            rows.insert(row);
+        }
+        edb.insert(r.name.clone(), rows.into_iter().collect());
+    }
+    ar.insert("p0".into(), arity);
+    ar.insert("q".into(), arity);
+    Case { prog: Program { clauses: vec![agg, q] }, edb, arity: ar }
+}
+
 // ------------------------------------------------------------------------------------------------
 // Structural shrinker (delta debugging on the decoded case; applied after proptest's tape shrink).
 
